@@ -97,3 +97,20 @@ Theorem AUX_C06_cltv_bounds_are_extrema_of_history :
       (forall m, NodePaymentsGen.RoutedPayment_outgoing_cltv_max p' = Some m -> In m all_out).
 Proof. exact CltvRuleProofs.book_bounds_are_extrema. Qed.
 Print Assumptions AUX_C06_cltv_bounds_are_extrema_of_history.
+
+(** Non-vacuity on the whole translated function: a state with a forwarded payment whose record has both
+    bounds (policy.cltv_delta = 34).  Bounds (1050, 1000): accepted, so the premise of
+    AUX_C06_cltv_rule_is_enforced_by_source is met by a record with both bounds; bounds (1030, 1000):
+    refused with policy-routing-cltv-delta although the amounts balance. *)
+Theorem AUX_C06_cltv_nonvacuous :
+  NodePaymentsGen.gen_NodeState_validate_payments Debug (fun _ => false) CltvRuleProofs.ex_policy (fun l => l)
+    (CltvRuleProofs.ex_state 1050 1000) 0 [(7, 100)] [] (NodePaymentsGen.mk_BalanceDelta 0 0) 0 = Val (Rust.OkR tt)
+  /\
+  NodePaymentsGen.gen_NodeState_validate_payments Debug (fun _ => false) CltvRuleProofs.ex_policy (fun l => l)
+    (CltvRuleProofs.ex_state 1030 1000) 0 [(7, 100)] [] (NodePaymentsGen.mk_BalanceDelta 0 0) 0
+    = Val (Rust.ErrR "policy-routing-cltv-delta"%string).
+Proof.
+  split; [exact (proj1 CltvRuleProofs.validate_payments_accepts_with_bounds)
+         | exact (proj1 CltvRuleProofs.validate_payments_refuses_small_margin)].
+Qed.
+Print Assumptions AUX_C06_cltv_nonvacuous.
